@@ -12,6 +12,7 @@ import (
 	"time"
 
 	"github.com/insomniacslk/dhcp/dhcpv4"
+	"verif/seq/fw"
 )
 
 func scribble(v reflect.Value, depth int) {
@@ -26,6 +27,11 @@ func scribble(v reflect.Value, depth int) {
 	case reflect.Slice:
 		if v.IsNil() {
 			return
+		}
+		if v.Type().Elem().Kind() == reflect.Uint8 && v.Len() > 0 {
+			if b, ok := v.Convert(reflect.TypeOf([]byte(nil))).Interface().([]byte); ok && fw.StdShared(b) {
+				return // a shared standard address value (net.IPv4zero, ...): not the caller's to overwrite
+			}
 		}
 		fallthrough
 	case reflect.Array:
